@@ -8,7 +8,8 @@ RULE = ("random operation sequences (length <= 8 quick / <= 20 thorough) on real
         "weights setters / fit_points, with valid and invalid arguments (absent knots, excess multiplicity, outside nodes, impossible reductions, "
         "wrong number of control points, weights with a sign change); non-mutating operations evaluation, + - * / @, ==, split, fraction, copy, "
         "Derivate, Integrate, Projection, Intersection, fit_curve of another curve to it; two curves built from one KnotVector object.  "
-        "Non-trivial: a sequence with at least one raising call or a rational curve; distinct = distinct (start curve, op list).")
+        "Non-trivial: a sequence with at least one raising call or a rational curve; distinct = distinct (start curve, op list)."
+        " Also: insertion of a node closer than 1e-9 to a different knot value into rational curves (refused: only atomicity is judged).")
 EXPLANATION = ("L3 (runtime-observed): after every step len(ctrlpoints) = npts = len(knotvector)-degree-1 (= len(weights)), the curve evaluates on "
                "its whole interval, a raising call leaves (U,P,W) exactly as they were, non-mutating calls leave every operand unchanged, copies "
                "and siblings built from one KnotVector are independent.  L2: the state after every mutating step vs the Lean curve state machine.")
@@ -36,7 +37,7 @@ def consistent(curve):
 
 def mutate(curve, op):
     k = op[0]
-    if k == "insert":
+    if k in ("insert", "insertnear"):
         curve.knot_insert(list(op[1]))
     elif k == "remove":
         curve.knot_remove(list(op[1])) if op[2] == "default" else curve.knot_remove(list(op[1]), op[2])
@@ -150,6 +151,15 @@ def run_case(ctx, case):
         before = curve_state(curve)
         r = impl(lambda: mutate(curve, op))
         after = curve_state(curve)
+        if op[0] == "insertnear":
+            # a node closer than 1e-9 to a different knot value: the outcome is the recorded C04 finding; here only atomicity is judged
+            rec.count("outcome", "near-knot-" + errkind(r))
+            l3(rec, "consistency+atomicity")
+            if r[0] != "ok" and after != before:
+                rec.violation("operation insert (node next to a knot) raised and left the curve modified", case, step=step, op=ser(op),
+                              before=ser(before), after=ser(after))
+            rec.case(case, nontrivial=True)
+            return
         m = model_mutate(drv, before, op)
         rec.count("outcome", errkind(r))
         same = (r[0] == "ok") == (m[0] == "ok") and (r[0] != "ok" or model_curve_state(m[1]) == after)
@@ -296,6 +306,15 @@ def run(ctx):
             else:
                 ops.append(("knotclean",))
         run_case(ctx, ser(dict(kind="seq", U=U, P=None, W=W, ops=ops, other=None, mutators_only=True)))
+    # a refused insertion next to a knot (rational curves refuse such nodes, KNOWN_FINDINGS C04) must leave the curve as it was (D34)
+    for i in range(budget(ctx, 6, 60)):
+        U, P, W = rand_curve(rng, pmax=3, nintmax=3, weights="pos")
+        p, n, knots = kv_info(U)
+        if len(knots) <= 2:
+            continue
+        x = rng.choice(knots[1:-1]) + rng.choice([-1, 1]) * F(1, 10 ** rng.choice([10, 12, 20]))
+        pre = [("insert", [U[0] + (U[-1] - U[0]) * rng.choice(GRID)])] if rng.random() < 0.5 else []
+        run_case(ctx, ser(dict(kind="seq", U=U, P=P, W=W, ops=pre + [("insertnear", [x])], other=None, mutators_only=True)))
     # lossy refits of rational curves with very unequal weights: the refitted denominator may change sign, the weights
     # setter then refuses it *after* the new knot vector and points have been computed (atomicity window of update())
     for i in range(budget(ctx, 10, 80)):
